@@ -29,6 +29,12 @@ FORBIDDEN = [
     "SELECT $this WHERE { SERVICE <http://ex.org/sparql> { $this ex:p ?v } }",
     "SELECT $this ?value WHERE { $this ex:p ?x . BIND (?x AS ?this) }",
     "SELECT $this WHERE { { SELECT ?v WHERE { ?s ex:p ?v } } $this ex:p ?v }",
+    # the same constructs after a '#': an IRI with a fragment, a comment line, a trailing comment
+    "SELECT $this WHERE { $this <http://www.w3.org/2000/01/rdf-schema#label> ?l . VALUES ?v { 1 2 } $this ex:p ?v }",
+    "# the values of ex:p\nSELECT $this WHERE { VALUES ?v { 1 2 } $this ex:p ?v }",
+    "SELECT $this WHERE { $this ex:p ?v . # only two of them\n VALUES ?v { 1 2 } }",
+    "SELECT $this WHERE { $this <http://www.w3.org/2000/01/rdf-schema#label> ?l . MINUS { $this ex:q ?l } }",
+    "# a remote look-up\nSELECT $this WHERE { SERVICE <http://ex.org/sparql> { $this ex:p ?v } }",
 ]
 MESSAGES = ["Value {?value} of {$this}", "other={?other} value={$value}", "fixed message", "path {?path} on {$this}"]
 
@@ -54,6 +60,8 @@ FORBIDDEN_ASKS = [
     "ASK { $value ex:p ?x . MINUS { $value ex:q ?x } }",
     "ASK { VALUES ?x { 1 2 } $value ex:p ?x }",
     "ASK { BIND ($this AS ?value) }",
+    "ASK { $value <http://www.w3.org/2000/01/rdf-schema#label> ?l . VALUES ?x { 1 2 } $value ex:p ?x }",
+    "# comment first\nASK { VALUES ?x { 1 2 } $value ex:p ?x }",
 ]
 FORBIDDEN_CSELECTS = [
     "SELECT $this ?value WHERE { $this ex:p ?value . BIND (20 AS ?arg) }",
@@ -61,12 +69,13 @@ FORBIDDEN_CSELECTS = [
     "SELECT $this ?value WHERE { $this ex:p ?value . MINUS { $this ex:q ?value } }",
     "SELECT $this WHERE { { SELECT ?v WHERE { ?s ex:p ?v } } $this ex:p ?v }",
     "SELECT $this ?value WHERE { $this ex:p ?x . BIND (?x AS ?this) }",
+    "SELECT $this ?value WHERE { $this <http://www.w3.org/2000/01/rdf-schema#label> ?l . VALUES ?value { 1 2 } $this ex:p ?value }",
 ]
 CMESSAGES = ["Value {$value} on {$this} arg {$arg}", "plain"]
 
 
 def gen_sparql_constraint(rng, is_prop):
-    if rng.random() < 0.08:
+    if rng.random() < 0.12:
         q = rng.choice(FORBIDDEN)
     else:
         q = rng.choice([t for t, needs in SELECTS if is_prop or not needs])
